@@ -371,4 +371,3 @@ func derefNamed(t types.Type) (*types.Named, bool) {
 	n, ok := t.(*types.Named)
 	return n, ok
 }
-
